@@ -113,6 +113,14 @@ void explore19(Options const& o, std::vector<Shim*> const& shims, std::vector<Sh
     {
     Shim* s = shims[ci];
     u64 ob = static_cast<u64>(ci) << 56;
+    // (a0) values observed during static initialisation (before fixed_math.cc's own initialisers ran) equal the values now
+    {
+    int c_early = rec.cls("C19.value_during_static_initialisation_differs");
+    for( int i = 0; i < s->fm_early_count(); ++i )
+      { i64 e = s->fm_early(i, 0), n = s->fm_early(i, 1);
+        if( e != n ) rec.viol(c_early, ob | static_cast<u64>(i), [&]{ return ex1(s, "compiled table function called from a static initialiser of a translation unit linked before fixed_math.cc", "probe #" + std::to_string(i), {{"probe",to_s(i)}}, to_s(n) + " (value when called later)", to_s(e), "early", {to_s(i)}); }); }
+    rec.add_states(static_cast<u64>(s->fm_early_count()), 2 * static_cast<u64>(s->fm_early_count()), static_cast<u64>(s->fm_early_count()));
+    }
     // (a) table entries
     {
     LocalViol lv(rec);
@@ -207,6 +215,9 @@ void replay19(Options const& o, Shim* s, Recorder& rec)
       rec.viol(c.c_index, 0, [&]{ Example e; e.entry = cosine ? "cos_angle_aprox" : "sin_angle_aprox"; e.cfg = o.rcfg; e.inputs = {{"d",to_s(a)}}; e.expected = "index " + to_s(residue360(a)); e.got = "index " + to_s(idx); e.rcase = o.rcase; e.rin = o.rin; return e; });
     return;
     }
+  if( o.rcase == "early" ) { int i = static_cast<int>(parse_i64(o.rin.at(0))); i64 e = s->fm_early(i, 0), n = s->fm_early(i, 1);
+    if( e != n ) { rec.viol(rec.cls("C19.value_during_static_initialisation_differs"), 0, [&]{ return ex1(s, "static-initialisation probe", "", {{"probe",to_s(i)}}, to_s(n), to_s(e), o.rcase, o.rin); }); }
+    return; }
   if( o.rcase == "entry" ) { int w = static_cast<int>(parse_i64(o.rin.at(0))); unsigned i = static_cast<unsigned>(parse_i64(o.rin.at(1))); Interval iv = C19::entry_interval(w, i); i64 g = s->fm_table(w, i);
     if( g < iv.lo || g > iv.hi ) rec.viol(c.c_entry, 0, [&]{ return ex1(s, "table entry", "", {{"table",to_s(w)},{"index",to_s(i)}}, "in [" + to_s(iv.lo) + "," + to_s(iv.hi) + "]", to_s(g), o.rcase, o.rin); }); }
   else if( o.rcase == "angle" ) { int cosine = static_cast<int>(parse_i64(o.rin.at(0))); int32_t a = static_cast<int32_t>(parse_i64(o.rin.at(1))); c.angle_value(s, cosine, a, s->fm_angle_aprox(cosine, a), 0, d); }
